@@ -46,6 +46,18 @@ impl Record {
             record.quality_scores().iter().collect::<io::Result<_>>()?
         };
 
+        // The reader consumes `read_length` scores per record.
+        if quality_scores.len() != record.sequence().len() {
+            return Err(io::Error::new(
+                io::ErrorKind::InvalidInput,
+                format!(
+                    "sequence-quality scores length mismatch: expected {}, got {}",
+                    record.sequence().len(),
+                    quality_scores.len()
+                ),
+            ));
+        }
+
         let reference_sequence_id = record.reference_sequence_id(header).transpose()?;
         let alignment_start = record.alignment_start().transpose()?;
 
@@ -1119,5 +1131,24 @@ mod tests {
         assert_eq!(actual, expected);
 
         Ok(())
+    }
+
+    #[test]
+    fn test_try_from_alignment_record_with_a_sequence_quality_scores_length_mismatch() {
+        use sam::alignment::RecordBuf;
+
+        let record = RecordBuf::builder()
+            .set_sequence(Sequence::from(b"ACGT"))
+            .set_quality_scores(QualityScores::from(vec![45, 35]))
+            .build();
+
+        assert!(matches!(
+            Record::try_from_alignment_record(
+                &fasta::Repository::default(),
+                &sam::Header::default(),
+                &record,
+            ),
+            Err(e) if e.kind() == io::ErrorKind::InvalidInput
+        ));
     }
 }
